@@ -7,6 +7,8 @@
 import Lcapy.Spec.LawsTD
 import Mathlib.Analysis.SpecialFunctions.Trigonometric.Deriv
 import Mathlib.Analysis.SpecialFunctions.Trigonometric.Basic
+import Mathlib.Analysis.SpecialFunctions.Sqrt
+import Lcapy.Model.ACConv
 namespace Lcapy.C14
 open Lcapy.TDS
 
@@ -40,5 +42,10 @@ theorem polar_is_rect (w A φ t : ℝ) :
     A * Real.sin (w * t + φ) = Sinus.fn w ⟨A * Real.sin φ, A * Real.cos φ⟩ t := by
   simp only [Sinus.fn, Sinus.at, Real.cos_add, Real.sin_add]
   constructor <;> ring
+
+/-- the hypotheses of `rms_sound` (Props/C14Conv.lean) are satisfiable over ℝ: √2 exists, and |P| = √(re² + im²) -/
+theorem rms_hypotheses_real (p : Cx ℝ) : ∃ r a : ℝ, r * r = 2 ∧ a * a = Lcapy.AC.magSq p :=
+  ⟨Real.sqrt 2, Real.sqrt (Lcapy.AC.magSq p), Real.mul_self_sqrt (by norm_num),
+   Real.mul_self_sqrt (add_nonneg (mul_self_nonneg _) (mul_self_nonneg _))⟩
 
 end Lcapy.C14
